@@ -403,6 +403,17 @@ def build_wrappings(tf, d, rng):
     out = tf.keras.layers.Dense(nc)(z)
     keras = tf.keras.Model(inp, out)
     keras.set_weights([W1, b1, W2, b2])
+    # a checkpoint-like sibling: same architecture, SAME NAME, same input / output shapes, other weights, explained by a
+    # black-box method before `keras` is (added after a seeded name-keyed model cache was missed): the Keras route must still
+    # explain `keras` itself
+    from xplique.attributions import Occlusion
+    decoy = tf.keras.models.clone_model(keras)
+    decoy.set_weights([W1[::-1].copy(), b1 + 1, -W2, b2 - 1])
+    try:
+        Occlusion(decoy, batch_size=4)
+    except Exception:  # noqa: BLE001
+        pass
+    keras._verif_sibling = decoy           # kept alive with the model
 
     class TFM(tf.Module):
         def __call__(self, a):
